@@ -49,7 +49,7 @@ fn bb_strategy() -> impl Strategy<Value = BbCase> {
 		eab,
 		proptest::collection::vec((pos.clone(), 1usize..=3, 1usize..=3), 0..=3),
 		any::<bool>(),
-		proptest::collection::vec((pos, 1usize..=2, proptest::sample::select(vec!["unauthorized", "rejectedIdentifier", "badCSR", "orderNotReady", "caa", "userActionRequired", "accountDoesNotExist", "serverInternal", "malformed"]).prop_map(|s| s.to_string())), 0..=2),
+		proptest::collection::vec((pos, 1usize..=2, proptest::sample::select(vec!["unauthorized", "rejectedIdentifier", "badCSR", "orderNotReady", "caa", "userActionRequired", "accountDoesNotExist", "serverInternal", "malformed", "non-json-500", "non-json-403", "empty-503"]).prop_map(|s| s.to_string())), 0..=2),
 		prop_oneof![3 => Just(false), 1 => Just(true)],
 		proptest::option::weighted(0.3, gen::key_type_strategy()),
 	)
@@ -86,7 +86,19 @@ fn exec_bb_in(case: &BbCase, acmed: &std::path::Path, dir: &std::path::Path) -> 
 	};
 	let ids = vec![("dns".to_string(), "j.jws.test".to_string())];
 	let mut faults: Vec<Fault> = case.badnonce.iter().map(|(p, nth, rep)| Fault { pos: p.clone(), nth: *nth, repeat: *rep, action: Action::Acme("badNonce".into()), cert: None }).collect();
-	faults.extend(case.errors.iter().map(|(p, nth, t)| Fault { pos: p.clone(), nth: *nth, repeat: 1, action: Action::Acme(t.clone()), cert: None }));
+	// (error answers that are not problem documents carry a fresh nonce like the others)
+	faults.extend(case.errors.iter().map(|(p, nth, t)| Fault {
+		pos: p.clone(),
+		nth: *nth,
+		repeat: 1,
+		action: match t.as_str() {
+			"non-json-500" => Action::NonJson(500),
+			"non-json-403" => Action::NonJson(403),
+			"empty-503" => Action::Empty(503),
+			t => Action::Acme(t.to_string()),
+		},
+		cert: None,
+	}));
 	let plan = CaPlan {
 		faults,
 		nonce_on_get: case.nonce_on_get,
@@ -372,7 +384,7 @@ fn exec_pr(case: &PrCase) -> Outcome {
 }
 
 pub fn run(ctx: &Ctx, rep: &mut Report) {
-	rep.rule = "bb: message flows of the real daemon (account key of any of 7 types; first registration + issuance; then optionally an edited configuration: key type change = roll-over between any two types (optionally two changes in a row with a start in between during which no renewal is due), contact change, plain restart; external account binding HS256/384/512; spurious badNonce answers at random positions and run lengths; 0..2 one-shot error answers of other ACME types, each delivered with a fresh nonce; the CA forgetting the account between the runs; CA with/without nonces on GET) against the strict mock CA, which checks every POST: flattened JWS shape, header members, alg vs key on record, url == request URL, nonce issued by this server and unused, jwk only for newAccount / inside key-change, kid otherwise, signature under the key on record (OpenSSL + ring, fixed-width R||S), payload shape, inner key-change JWS and EAB JWS. Any strict event is a violation; every run must succeed and the CA's key must follow the configuration. Non-trivial = history with a badNonce retry, a roll-over or EAB. pr: batches of JWS produced by the daemon's builders in the probe over random payloads/URLs/nonces/kids with a fresh key per JWS (and random MAC keys), each decoded and verified by the harness; non-trivial = an ECDSA signature whose r or s starts with a zero octet (or a MAC case).".into();
+	rep.rule = "bb: message flows of the real daemon (account key of any of 7 types; first registration + issuance; then optionally an edited configuration: key type change = roll-over between any two types (optionally two changes in a row with a start in between during which no renewal is due), contact change, plain restart; external account binding HS256/384/512; spurious badNonce answers at random positions and run lengths; 0..2 one-shot error answers of other ACME types or without a problem document (HTML 500/403, empty 503), each delivered with a fresh nonce; the CA forgetting the account between the runs; CA with/without nonces on GET) against the strict mock CA, which checks every POST: flattened JWS shape, header members, alg vs key on record, url == request URL, nonce issued by this server and unused, jwk only for newAccount / inside key-change, kid otherwise, signature under the key on record (OpenSSL + ring, fixed-width R||S), payload shape, inner key-change JWS and EAB JWS. Any strict event is a violation; every run must succeed and the CA's key must follow the configuration. Non-trivial = history with a badNonce retry, a roll-over or EAB. pr: batches of JWS produced by the daemon's builders in the probe over random payloads/URLs/nonces/kids with a fresh key per JWS (and random MAC keys), each decoded and verified by the harness; non-trivial = an ECDSA signature whose r or s starts with a zero octet (or a MAC case).".into();
 	rep.assume("nonce freshness is judged on histories in which every response is delivered (badNonce and other error answers carry a fresh nonce); dropped connections and nonce-less answers are not injected here");
 	run_replays::<BbCase>(ctx, rep, "bb", &exec_bb);
 	for kt in gen::KEY_TYPES {
